@@ -2,7 +2,7 @@ import Librfn.Driver.Util
 import Librfn.Model.Bintree
 /-! Line-protocol driver for the C11 model: same ops and same canonical outputs as `harness/h_bintree.c`.
 
-    tree N ROOT l0 r0 l1 r1 …   build nodes 0…N-1 (`-` = NULL)            → ok
+    tree N ROOT l0 r0 l1 r1 … [align o0 o1 …]   build nodes 0…N-1 (`-` = NULL); offsets: C side only → ok
     lists i j …                  mark these nodes as list nodes             → ok
     iter in|pre|post|list [K]    iterate (to completion, or K ≥ 1 calls only)  → seq …   (post: node/parent)
     resume                       finish an iteration cut short by K         → seq …
@@ -85,7 +85,9 @@ def stepLine (s : S) (w : List String) : S × List String :=
   | [] => (s, [])
   | ["reset"] => ({}, ["ok"])
   | "tree" :: n :: root :: links =>
-    match n.toNat?, ptr? root, parseLinks 0 links with
+    -- an optional suffix `align o0 o1 …` places the C nodes at byte offsets within their blocks; the model's
+    -- pointer and tag are independent components, so it has nothing to do with it
+    match n.toNat?, ptr? root, parseLinks 0 (links.takeWhile (· ≠ "align")) with
     | some n, some root, some nodes =>
       if nodes.length = n then
         let a : Array (Option Node) := (nodes.map (fun p => some p.2)).toArray
